@@ -2371,7 +2371,7 @@ class Attribute(object):
                             if reverse.is_required: throw(ConstraintError,
                                 'Cannot unlink %r from previous %s object, because %r attribute is required'
                                 % (old_val, obj, reverse))
-                            reverse.__set__(old_val, None, undo_funcs)
+                            if old_val is not obj or reverse is not attr: reverse.__set__(old_val, None, undo_funcs)
                     elif isinstance(reverse, Set):
                         reverse.reverse_remove((old_val,), obj, undo_funcs)
                     else: throw(NotImplementedError)
@@ -2440,7 +2440,7 @@ class Attribute(object):
     def update_reverse(attr, obj, old_val, new_val, undo_funcs):
         reverse = attr.reverse
         if not reverse.is_collection:
-            if old_val not in (None, NOT_LOADED):
+            if old_val not in (None, NOT_LOADED) and (old_val is not obj or reverse is not attr):
                 if attr.cascade_delete: old_val._delete_(undo_funcs)
                 elif reverse.is_required: throw(ConstraintError,
                     'Cannot unlink %r from previous %s object, because %r attribute is required'
